@@ -749,3 +749,46 @@ def indexes_follow_position(ctx):
             ctx.require(p_ is None, q, 'self.inputs is changed by %s and the method can return without renumbering index_n (%s)' % (how, g.describe_path(p_) if p_ else ''), y,
                         't1 + t2 keeps the index numbers 0, 1, 0: the re-signed legacy inputs carry signatures over the digest of another input - invalid for every other verifier, and verify() on the merged object is False for segwit inputs')
     ctx.floor(n, 3, 'changes of Transaction.inputs outside the constructor')
+
+
+@PROP.obligation('C01.wallet-input-witness', canaries=[
+    mut.drop_kwarg('wallets', 'Wallet.select_inputs', 'Input', 'witness_type', 'selected inputs are typed from their address'),
+    mut.drop_kwarg('wallets', 'WalletTransaction.add_input_from_wallet', 'add_input', 'witness_type', 'inputs added from the wallet are typed from their address'),
+    mut.replace_stmt('wallets', 'Wallet.transaction_create', 'witness_type = inp_utxo.key.witness_type', "witness_type = 'segwit'", 'explicit inputs typed by a constant'),
+])
+def wallet_input_witness(ctx):
+    """Which preimage an input is signed with (legacy or BIP143) follows Input.witness_type. Without the argument Input.__init__ infers it
+    from the address, and a P2SH address ('3...') says nothing about a nested witness program: the input of a p2sh-segwit key becomes
+    legacy, is signed with the legacy digest and serialized with a sig+pubkey scriptSig. Every Input(...) / add_input(...) call of
+    wallets.py that hands over wallet keys (keys=...) passes witness_type=, and the value comes from a key / row / Input attribute
+    `.witness_type` (directly or through a local variable), never from a constant."""
+    mod = ctx.repo.mod('wallets')
+    n = 0
+    for name, fn in sorted(mod.functions.items()):
+        q = 'wallets:' + name
+        calls = [c for c in walk_no_nested(fn) if isinstance(c, ast.Call) and (norm(c.func) == 'Input' or (isinstance(c.func, ast.Attribute) and c.func.attr == 'add_input'))
+                 and any(k.arg == 'keys' for k in c.keywords)]
+        if not calls:
+            continue
+        for c in calls:
+            n += 1
+            kw = {k.arg: k.value for k in c.keywords}
+            wt = kw.get('witness_type')
+            if wt is None:
+                ctx.violate(q, '`%s(...)` hands over wallet keys without witness_type=: the input is typed from its address' % norm(c.func), c,
+                            'the input of a p2sh-segwit key (address 3...) is typed legacy: it is signed with the legacy digest instead of BIP143 and verify() agrees with the wrong digest')
+                continue
+            srcs = [wt]
+            if isinstance(wt, ast.Name):
+                srcs = [a.value for a in ast.walk(fn) if isinstance(a, ast.Assign) and any(isinstance(t, ast.Name) and t.id == wt.id for t in a.targets)]
+            ok = bool(srcs) and all(any(isinstance(x, ast.Attribute) and x.attr == 'witness_type' for x in ast.walk(s_)) for s_ in srcs)
+            ctx.saw('%s: %s(..., witness_type=%s) <- %s' % (q.split(':')[1], norm(c.func), norm(wt), sorted(set(norm(s_)[:50] for s_ in srcs))))
+            ctx.require(ok, q, 'witness_type=%s of `%s(...)` does not come from a `.witness_type` attribute on every path (%s)' % (norm(wt), norm(c.func), sorted(set(norm(s_)[:40] for s_ in srcs))), c,
+                        'the input is typed independently of the key it spends from: a segwit input is signed with the legacy digest or the reverse')
+    ctx.floor(n, 5, 'Input constructions with wallet keys')
+
+
+from . import c08 as _c08
+PROP.obligation('C01.reload-zero', canaries=[
+    mut.replace_expr('wallets', 'WalletTransaction.from_txid', 'inp.sequence is not None', 'inp.sequence', 'a stored sequence of 0 reloads as the default: other hashSequence'),
+])(_c08.reload_zero)
